@@ -50,6 +50,19 @@ class P:
             for c in (1, 2, 3):
                 for k, v in ctxs[1].items(): rep_ops.append("CV:%d:%s:%s" % (c, hx(k), speceval.to_proto_value(v[1])))
             items.append((" ".join(rep_ops + ["EXEC:%d:%s" % (c, hx(src)) for c in (1, 2, 3)]), ("rep", None, None, len(rep_ops))))
+        # soak: hundreds of failing evaluations of different depths on ONE persistent thread, then ordinary programs
+        fails = ["1/0", "[1, [2, [3/0]]]", "nosuchfn()", "x = [a, [a, [a / 0]]]; x", "1 + true", "{1: [2, {3: 1 % 0}]}", "f(", "min()"]
+        for rep in range(1 if tier == "quick" else 6):
+            ops = []
+            calls = []
+            for i in range(700):
+                src = fails[(i + rep) % len(fails)]
+                ops.append("@soak/EXEC:1:" + hx(src))
+                calls.append(("exec-any", 1, None, src))
+            for src, stmts in [("1 + 1", [("bin", "+", ("lit", "1"), ("lit", "1"))]), ("[1, [2, [3]]]", [("list", [("lit", "1"), ("list", [("lit", "2"), ("list", [("lit", "3")])])])])]:
+                ops.append("@soak/EXEC:2:" + hx(src)); calls.append(("exec", 2, stmts, src))
+                ops.append("EXEC:3:" + hx(src)); calls.append(("exec", 3, stmts, src))
+            items.append((" ".join(ops), ("seq", {1: {}, 2: {}, 3: {}}, calls, 0)))
         return flow.mk_cases("hist", items)
 
     def show(self, case):
@@ -93,7 +106,7 @@ class P:
             return "ok", ""
         state = {c: dict(b) for c, b in ctxs.items()}
         for (k, c, stmts, src), o in zip(calls, outs):
-            if k == "parse": continue
+            if k in ("parse", "exec-any"): continue
             cls, val, fctx, _log = speceval.run_program(stmts, state[c], {})
             if cls == "SKIP":
                 self.skipped += 1; return "ok", ""
